@@ -19,6 +19,13 @@ var profLatest = Profile{
 	OpW: opWDefault, MaxSnaps: 0, MaxIters: 0,
 }
 
+func init() {
+	// C01 holds for every history: a third of its cases use the deep-LSM
+	// (ingest-built levels, multi-level compactions) and the ingest/excise
+	// history shapes of C15 and C36.
+	profLatest.Alt, profLatest.AltPct = []Profile{profLevelInv, profIngest}, 33
+}
+
 func anyLabel(ls []string, pfx string) bool {
 	for _, l := range ls {
 		if strings.HasPrefix(l, pfx) {
